@@ -6,7 +6,10 @@
 //! window is exhausted it yields zeros and rand 0.9's Lemire sampling then rejects forever.)
 
 use crate::gen::*;
-use crate::props::{c10, c12, c13, c15, c19};
+use crate::gen_tree::*;
+use crate::hist::*;
+use crate::props::{c02, c06, c07, c08, c09, c10, c12, c13, c15, c19};
+use crate::schema::SchemaSpec;
 use crate::runner::*;
 use std::collections::BTreeSet;
 use std::sync::{Once, OnceLock};
@@ -227,6 +230,237 @@ impl FromBytes for c19::Case {
     }
 }
 
+// ---------------------------------------------------------------------------------------------
+// trees and histories
+
+fn aff_bytes(src: &mut ByteSrc, out: usize, inn: usize) -> Aff {
+    let rows: Vec<Vec<f64>> = (0..out).map(|_| src.vec_sparse(inn)).collect();
+    let bias = src.vec_sparse(out);
+    Aff { mat: Mat { rows, cols: inn }, bias }
+}
+
+fn scale_bytes(src: &mut ByteSrc) -> i8 {
+    let b = src.u8();
+    if b % 8 == 0 {
+        ((src.u8() % 73) as i8) - 36
+    } else {
+        0
+    }
+}
+
+fn pred_row_bytes(src: &mut ByteSrc, n: usize) -> PredRow {
+    let mut a = src.vec_sparse(n);
+    let sel = src.u8();
+    if a.iter().all(|x| *x == 0.0) && sel % 16 != 0 {
+        a[sel as usize % n] = 1.0;
+    }
+    let b = if src.bool() { BiasSpec::Val(src.nice()) } else { BiasSpec::Through(src.u16()) };
+    let anc = if src.u8() % 5 == 0 { Some((src.u16(), src.bool(), [0.0, 0.0, 1.0, -1.0, 0.5][src.below(5)])) } else { None };
+    PredRow { a, b, anc, scale: scale_bytes(src) }
+}
+
+fn leaf_bytes(src: &mut ByteSrc, out: usize, inn: usize) -> LeafSpec {
+    match src.below(4) {
+        0 | 1 => LeafSpec::Pool(src.u16()),
+        2 => LeafSpec::Near { pool: src.u16(), which: src.u16(), delta: [1.0, -1.0, 0.5, 2.0][src.below(4)] },
+        _ => LeafSpec::Fresh(aff_bytes(src, out, inn)),
+    }
+}
+
+fn tnode_bytes(src: &mut ByteSrc, max_rows: usize, inn: usize, out: usize, depth: u32, total: bool) -> TNode {
+    if depth == 0 || src.exhausted() || src.u8() % 4 == 0 {
+        return TNode::Leaf(leaf_bytes(src, out, inn));
+    }
+    let r = 1 + src.below(max_rows);
+    let rows: Vec<PredRow> = (0..r).map(|_| pred_row_bytes(src, inn)).collect();
+    let mut kids: Vec<Option<TNode>> = (0..(1usize << r))
+        .map(|_| if total || src.u8() % 6 != 0 { Some(tnode_bytes(src, max_rows, inn, out, depth - 1, total)) } else { None })
+        .collect();
+    if kids.iter().all(|k| k.is_none()) {
+        kids[0] = Some(TNode::Leaf(LeafSpec::Pool(0)));
+    }
+    TNode::Dec { rows, kids }
+}
+
+/// total decoder for a tree specification of arity `k` (2, 4 or 8)
+pub fn tree_spec_bytes(src: &mut ByteSrc, k: usize, inn: usize, out: usize, max_depth: u32, total: bool) -> TreeSpec {
+    let max_rows = if k >= 8 { 3 } else if k >= 4 { 2 } else { 1 };
+    let pool = (0..(2 + src.below(2))).map(|_| aff_bytes(src, out, inn)).collect();
+    let anchors = (0..(1 + src.below(3))).map(|_| src.lattice(inn)).collect();
+    let depth = src.below(max_depth as usize + 1) as u32;
+    let root = tnode_bytes(src, max_rows, inn, out, depth, total);
+    let order = (0..src.below(6)).map(|_| src.u16()).collect();
+    let junk = if total { Vec::new() } else { (0..src.below(6)).map(|_| src.u8()).collect() };
+    let leaf_scale = if src.u8() % 10 == 0 { ((src.u8() % 49) as i8) - 24 } else { 0 };
+    TreeSpec { in_dim: inn, out_dim: out, pool, anchors, root, order, junk, leaf_scale }
+}
+
+fn dyadic_param(src: &mut ByteSrc) -> f64 {
+    ((src.u8() % 49) as f64 - 24.0) / (1u32 << src.below(3)) as f64
+}
+
+fn schema_bytes(src: &mut ByteSrc) -> SchemaSpec {
+    match src.below(11) {
+        0 | 1 => SchemaSpec::ReLU { row: src.u16() },
+        2 => SchemaSpec::Leaky { row: src.u16(), alpha: [0.0, 0.5, -1.0, 2.0, 0.125][src.below(5)] },
+        3 => SchemaSpec::HardTanh { row: src.u16(), min: dyadic_param(src), width: (src.u8() % 17) as f64 / 4.0 },
+        4 => SchemaSpec::HardShrink { row: src.u16(), lambda: (src.u8() % 17) as f64 / 4.0 },
+        5 => SchemaSpec::HardSigmoid { row: src.u16() },
+        6 => SchemaSpec::Threshold { row: src.u16(), t: dyadic_param(src), v: dyadic_param(src) },
+        7 | 8 => SchemaSpec::Argmax,
+        9 => SchemaSpec::ClassChar { clazz: src.u16() },
+        _ => {
+            let m = dyadic_param(src);
+            let w = (src.u8() % 17) as f64 / 4.0;
+            match src.below(3) {
+                0 => SchemaSpec::InfNorm { min: Some(m), max: Some(m + w) },
+                1 => SchemaSpec::InfNorm { min: Some(m), max: None },
+                _ => SchemaSpec::InfNorm { min: None, max: Some(w - 2.0) },
+            }
+        }
+    }
+}
+
+fn point_bytes(src: &mut ByteSrc, n: usize) -> PointSpec {
+    match src.below(5) {
+        0 | 1 => PointSpec::Anchor(src.u16()),
+        2 | 3 => PointSpec::Neighbour { anchor: src.u16(), axis: src.u16(), step: [1i8, -1, 2, -2, 4, -4][src.below(6)] },
+        _ => PointSpec::Free(src.lattice(n)),
+    }
+}
+
+fn points_bytes(src: &mut ByteSrc, n: usize) -> Vec<PointSpec> {
+    (0..(6 + src.below(5))).map(|_| point_bytes(src, n)).collect()
+}
+
+fn poly_spec_dim(src: &mut ByteSrc, n: usize, max_rows: usize) -> PolySpec {
+    let anchors = (0..(1 + src.below(3))).map(|_| src.lattice(n)).collect();
+    let m = 1 + src.below(max_rows);
+    let rows = (0..m).map(|_| row_spec(src, n)).collect();
+    PolySpec { dim: n, anchors, rows, scales: Vec::new() }
+}
+
+fn gspec_bytes(src: &mut ByteSrc, total: bool) -> GSpec {
+    if src.u8() % 5 < 2 {
+        GSpec::Tree(tree_spec_bytes(src, 2, MAXD, MAXD, 2, total))
+    } else {
+        GSpec::Schema(schema_bytes(src))
+    }
+}
+
+/// total decoder for an operation history (all specifications in dimension MAXD, projected at
+/// interpretation time like the generated ones); `total` = only total trees and totality-preserving ops (C06)
+pub fn history_bytes(src: &mut ByteSrc, total: bool, max_ops: usize) -> History {
+    let in_dim = 1 + src.below(MAXD);
+    let out0 = src.u8();
+    let ctor = match src.below(10) {
+        0 | 1 => Ctor::New,
+        2 => Ctor::FromAff(aff_bytes(src, MAXD, MAXD)),
+        3 | 4 => {
+            let p = poly_spec_dim(src, MAXD, 3);
+            let ft = aff_bytes(src, MAXD, MAXD);
+            let ff = if total || src.bool() { Some(aff_bytes(src, MAXD, MAXD)) } else { None };
+            Ctor::FromPoly { p, ft, ff }
+        }
+        5 | 6 => Ctor::Schema(schema_bytes(src)),
+        _ => Ctor::Tree(tree_spec_bytes(src, 2, MAXD, MAXD, 2, total)),
+    };
+    let n_ops = 1 + src.below(max_ops);
+    let mut ops = Vec::new();
+    for _ in 0..n_ops {
+        if src.exhausted() && !ops.is_empty() {
+            break;
+        }
+        let op = if total {
+            match src.below(13) {
+                0..=2 => HOp::ApplyFunc { a: aff_bytes(src, MAXD, MAXD), out: src.u8() },
+                3..=7 => HOp::Compose { prune: false, g: gspec_bytes(src, true), out: src.u8() },
+                8 | 9 => HOp::Compose { prune: true, g: gspec_bytes(src, true), out: src.u8() },
+                _ => HOp::Eliminate,
+            }
+        } else {
+            match src.below(23) {
+                0 | 1 => HOp::ApplyFunc { a: aff_bytes(src, MAXD, MAXD), out: src.u8() },
+                2..=5 => HOp::Compose { prune: false, g: gspec_bytes(src, false), out: src.u8() },
+                6..=9 => HOp::Compose { prune: true, g: gspec_bytes(src, false), out: src.u8() },
+                10..=14 => HOp::Eliminate,
+                15 | 16 => HOp::Reduce,
+                17 | 18 => HOp::Add { b: tree_spec_bytes(src, 2, MAXD, MAXD, 2, false), variant: src.u8() },
+                19 | 20 => HOp::Sub { b: tree_spec_bytes(src, 2, MAXD, MAXD, 2, false), variant: src.u8() },
+                21 => HOp::Neg,
+                _ => {
+                    let a = aff_bytes(src, MAXD, MAXD);
+                    match src.below(4) {
+                        0 => HOp::AddAff(a),
+                        1 => HOp::SubAff(a),
+                        2 => HOp::AffAdd(a),
+                        _ => HOp::AffSub(a),
+                    }
+                }
+            }
+        };
+        ops.push(op);
+    }
+    let points = points_bytes(src, MAXD);
+    let anchors = (0..(1 + src.below(3))).map(|_| src.lattice(MAXD)).collect();
+    let mut h = History { in_dim, out0, ctor, ops, points, anchors };
+    if total {
+        c06::make_total_pub(&mut h);
+    }
+    h
+}
+
+impl FromBytes for c02::Case {
+    fn decode(src: &mut ByteSrc) -> Self {
+        let k = [2usize, 2, 4, 4, 8][src.below(5)];
+        let (n, m, p, q) = (1 + src.below(3), 1 + src.below(3), 1 + src.below(3), 1 + src.below(3));
+        let maxd = if k == 8 { 1 } else { 3 };
+        let f = tree_spec_bytes(src, k, n, m, maxd, false);
+        let g = tree_spec_bytes(src, k, m, p, maxd, false);
+        let a = aff_bytes(src, q, m);
+        let points = points_bytes(src, n);
+        c02::Case { k4: k == 4, k8: k == 8, f, g, a, points }
+    }
+}
+
+impl FromBytes for c07::Case {
+    fn decode(src: &mut ByteSrc) -> Self {
+        let (n, p) = (1 + src.below(3), 1 + src.below(2));
+        let a = tree_spec_bytes(src, 2, n, p, 3, false);
+        let b = tree_spec_bytes(src, 2, n, p, 3, false);
+        let f = aff_bytes(src, p, n);
+        let points = points_bytes(src, n);
+        c07::Case { a, b, f, points }
+    }
+}
+
+impl FromBytes for c08::Case {
+    fn decode(src: &mut ByteSrc) -> Self {
+        let (n, p) = (1 + src.below(3), 1 + src.below(2));
+        let total = src.bool();
+        let mut t = tree_spec_bytes(src, 2, n, p, 4, total);
+        t.pool.truncate(2);
+        let points = points_bytes(src, n);
+        c08::Case { t, points }
+    }
+}
+
+impl FromBytes for c09::Case {
+    fn decode(src: &mut ByteSrc) -> Self {
+        let (n, p) = (1 + src.below(3), 1 + src.below(2));
+        let t = tree_spec_bytes(src, 2, n, p, 4, false);
+        let points = points_bytes(src, n);
+        let script = (0..src.below(20)).map(|_| src.u8() % 4 != 0).collect();
+        c09::Case { t, points, script }
+    }
+}
+
+/// C03, C04 and C06 use `History` itself as their case type; the decoders differ (C06 needs total trees),
+/// so the history targets go through these wrappers instead of `FromBytes for History`.
+pub fn decode_history(data: &[u8], total: bool) -> History {
+    history_bytes(&mut ByteSrc::new(data), total, 8)
+}
+
 static INIT: Once = Once::new();
 static OPEN: OnceLock<BTreeSet<String>> = OnceLock::new();
 
@@ -236,12 +470,16 @@ pub fn fuzz_case<P: Property>(p: &P, data: &[u8])
 where
     P::Case: FromBytes,
 {
+    fuzz_case_with(p, data, |d| <P::Case as FromBytes>::decode(&mut ByteSrc::new(d)))
+}
+
+pub fn fuzz_case_with<P: Property>(p: &P, data: &[u8], decode: impl Fn(&[u8]) -> P::Case) {
     INIT.call_once(|| {
         // replaces libFuzzer's abort-on-any-panic hook: documented panics are caught by `guard`
         install_quiet_panic_hook();
     });
     let open = OPEN.get_or_init(|| load_known(&verif_root(), p.id()).into_iter().map(|k| k.signature).collect());
-    let case = <P::Case as FromBytes>::decode(&mut ByteSrc::new(data));
+    let case = decode(data);
     match run_case_public(p, &case, open) {
         Ok(()) => {}
         Err((infra, f)) => {
@@ -262,10 +500,14 @@ pub fn replay_artifact<P: Property>(p: &P, data: &[u8]) -> i32
 where
     P::Case: FromBytes,
 {
+    replay_artifact_with(p, data, |d| <P::Case as FromBytes>::decode(&mut ByteSrc::new(d)))
+}
+
+pub fn replay_artifact_with<P: Property>(p: &P, data: &[u8], decode: impl Fn(&[u8]) -> P::Case) -> i32 {
     install_quiet_panic_hook();
     let root = verif_root();
     let open: BTreeSet<String> = load_known(&root, p.id()).into_iter().map(|k| k.signature).collect();
-    let case = <P::Case as FromBytes>::decode(&mut ByteSrc::new(data));
+    let case = decode(data);
     match run_case_public(p, &case, &open) {
         Ok(()) => {
             println!("artifact: property {} holds on the decoded case", p.id());
